@@ -5,24 +5,10 @@
 (* adjacent character tokens concatenated) must equal the WHATWG           *)
 (* tokenization (L0 HtmlTokenizer) of the CR-normalised input.             *)
 (***************************************************************************)
-EXTENDS HtmlTokenizer, Preprocess, TLC, Json, IOUtils
+EXTENDS Trace_HtmlTokBase
 
-Rec == ndJsonDeserialize(IOEnv.TRACE)
 VARIABLES l
 Init == l = 1
-
-N(s) == [i \in 1..Len(s) |-> s[i]]   \* identity; documents that names are code-point sequences
-StdReplies ==
-    << [k |-> "start", name |-> <<116, 105, 116, 108, 101>>, r |-> "rcdata"],
-       [k |-> "start", name |-> <<116, 101, 120, 116, 97, 114, 101, 97>>, r |-> "rcdata"],
-       [k |-> "start", name |-> <<115, 116, 121, 108, 101>>, r |-> "rawtext"],
-       [k |-> "start", name |-> <<120, 109, 112>>, r |-> "rawtext"],
-       [k |-> "start", name |-> <<115, 99, 114, 105, 112, 116>>, r |-> "script_data"],
-       [k |-> "start", name |-> <<112, 108, 97, 105, 110, 116, 101, 120, 116>>, r |-> "plaintext"],
-       [k |-> "end", name |-> <<115, 99, 114, 105, 112, 116>>, r |-> "script"] >>
-
-CfgOf(e) == [state |-> e.cfg.state, last |-> e.cfg.last, cdata |-> e.cfg.cdata,
-             replies |-> IF e.cfg.rs = "std" THEN StdReplies ELSE <<>>]
 
 Expected(e) == StripAll(Tokenize(CfgOf(e), Normalize(Flatten(e.chunks))))
 
